@@ -46,6 +46,25 @@ SumAt(regions, datas, outer, inner, coords, j) ==
            dl == Lookup(datas, outer, inner, j - 1)
            rest == SumAt(regions, datas, outer, inner, coords, j + 1)
        IN <<sc[1] * dl * rest[2] + rest[1] * sc[2], sc[2] * rest[2]>>
+\* ---- delta-set index map (raw): [none, entry_format, map_count, bytes] ---------------------
+\* entry size = ((format >> 4) & 3) + 1 bytes, inner bit count = (format & 15) + 1; an index at or beyond map_count uses
+\* the last entry. Answer <<outer, inner>>.
+RECURSIVE Pow2(_)
+Pow2(n) == IF n = 0 THEN 1 ELSE 2 * Pow2(n - 1)
+RECURSIVE BEValue(_, _, _)
+BEValue(b, off, n) == IF n = 0 THEN 0 ELSE BEValue(b, off, n - 1) * 256 + b[off + n]
+MapEntry(m, g) ==
+  LET sz == ((m.entry_format \div 16) % 4) + 1
+      ib == (m.entry_format % 16) + 1
+      i == IF g >= m.map_count THEN m.map_count - 1 ELSE g
+      v == BEValue(m.bytes, i * sz, sz)
+  IN <<v \div Pow2(ib), v % Pow2(ib)>>
+
+\* ---- hmtx: long = Seq(<<advance, lsb>>), lsbs = side bearings of the glyphs after the long metrics ------------
+HmtxAdvance(long, g) == IF g + 1 <= Len(long) THEN long[g + 1][1] ELSE long[Len(long)][1]
+HmtxLsb(long, lsbs, g) == IF g + 1 <= Len(long) THEN long[g + 1][2]
+                          ELSE IF g + 1 - Len(long) <= Len(lsbs) THEN lsbs[g + 1 - Len(long)] ELSE 0
+
 \* an integer answer `v` is the exact value rounded, with a little slack for fixed-point scalars:
 \*   | v - N/D | <= 0.5 + 1/64
 WithinRounding(v, nd) == LET N == nd[1] D == nd[2] diff == v * D - N IN
